@@ -31,7 +31,7 @@ class C15(Prop):
     TRUSTED = ["bedgraphtobigwig and bigwigtobedgraph binaries used to make inputs / read bigWig outputs back (C01/C16 territory)",
                "f32 <-> eighths conversion in Model/Entry_C15.v and the harness (exact range only)",
                "MAX_BW_FDS and the output-name suffixes come from Generated/Consts.v (translator) and are tied to the model by C15_constants_from_source"]
-    ASSUMPTIONS = ["values are multiples of 1/8 small enough that every f32/f64 intermediate is exact (DESIGN 3.2)",
+    ASSUMPTIONS = ["values are multiples of 1/8 small enough that every f32/f64 intermediate is exact (DESIGN 3.2); the magnitude cases use 2^24 and +-1, +-2 with per-base sums that are exact in f64 and representable in f32",
                    "positions stay far below 2^32 (u32 overflow of next_start is not modelled)",
                    "debug-profile panics (overflow checks on), as built by the harness"]
 
@@ -105,6 +105,25 @@ class C15(Prop):
             st = rng.choice([x for x in items if x]); i = rng.randrange(len(st))
             st.insert(i, [0, st[i][1], st[i][2] + rng.choice([0, 1, W]), 8]); tags.append("overlapping")
         return sx([1, items]), tags
+
+    def magnitude_case(self, rng):
+        """three or more streams over the same bases whose values differ by more than 2^24: the per-base sum
+        is exact in f64 and fits an f32, but a running sum kept in f32 loses the small addends on the way"""
+        B = 2 ** 27                                  # 2^24 in eighths
+        pattern = rng.choice([[B, 8, 8], [8, B, 8], [B, 8, 8, 8, 8], [B, 8, -B], [B, 8, 8, -B], [-B, -8, B],
+                              [-B, -8, -8], [B, 8, 8, 16], [B, -B, 8], [8, 8, B]])
+        nwin = rng.choice([0, 1, 2])
+        pts = self.anchors(rng, nwin)
+        if len(pts) < 2: pts = [0, 7]
+        vs = []
+        i = 0
+        while i + 1 < len(pts):
+            if pts[i + 1] > pts[i] and (rng.random() < 0.7 or not vs):
+                vs.append((pts[i], pts[i + 1]))
+            i += 1
+        if not vs: vs = [(3, 9)]
+        items = [[[0, a, b, v] for (a, b) in vs] for v in pattern]
+        return sx([1, items]), ["merge_many", f"k={len(pattern)}", f"windows~{nwin + 1}", "magnitudes>2^24"]
 
     def fill_case(self, rng):
         bounded = rng.random() < 0.6
@@ -189,6 +208,8 @@ class C15(Prop):
         yield from self.merge_into_cases(rng, tier)
         for _ in range(330 if quick else 7500):
             yield self.merge_many_case(rng)
+        for _ in range(24 if quick else 200):
+            yield self.magnitude_case(rng)
         for _ in range(110 if quick else 1500):
             yield self.fill_case(rng)
         for i in range(30 if quick else 300):
